@@ -55,6 +55,9 @@ def c01_scenarios():
     if tier() == "thorough":
         s.append(scenario("swap-swap-swap", "C01", FUND, [swap("b1", [8]), swap("b1", [4, 4]), swap("b1", [2, 2, 4])]))
         s.append(scenario("swap-swap-melt", "C01", FUND + [mq(7)], [swap("b1", [8]), swap("b1", [4, 4]), melt("lq1", "b1")]))
+        # a melt in its window between the PENDING writes and the payment, a poll of its quote that the backend answers with
+        # "no such payment" (the truth at that moment), and a swap of its inputs
+        s.append(scenario("melt-pollmelt-swap", "C01", FUND + [mq(7)], [melt("lq1", "b1"), {"op": "pollmelt", "q": "lq1"}, swap("b1", [8])]))
         s.append(scenario("swap-melt-pollmelt", "C01", FUND + [mq(7)], [swap("b1", [8]), melt("lq1", "b1", pay=["pending"]),
                                                                        {"op": "pollmelt", "q": "lq1", "status": ["succeeded"]}]))
     return s
